@@ -83,7 +83,9 @@ fn strategy(_ctx: &Ctx) -> BoxedStrategy<Case> {
                 5 => (edits(), any::<bool>()).prop_map(|(edits, parent)| Hc::Backup { edits, parent }),
                 2 => any::<u16>().prop_map(Hc::Forget),
                 4 => prune_cfg().prop_map(|mut p| {
-                    p.early_delete_index = false;
+                    if p.instant_delete {
+                        p.early_delete_index = false;
+                    }
                     Hc::Prune(p)
                 }),
                 1 => edits().prop_map(|edits| Hc::CopyInto { edits }),
